@@ -88,10 +88,12 @@ def run(chk, tier):
             chk.config(crate.config)
             f = crate.facts
             # ---- R1
-            st = {s["path"] for s in f["statics"]}
+            # state-carrying statics (mutable, interior-mutable or thread-local); a plain immutable static is a named table
+            plain = {s["path"] for s in f["statics"] if not (s["mutable"] or s["interior_mut"] or s["thread_local"])}
+            st = {s["path"] for s in f["statics"]} - plain
             allowed = {s for s in STATICS_ALLOWED[config] if s.startswith(cname + "::")}
             chk.ob("R1", "%s[%s]|statics" % (cname, config), st == allowed,
-                   "statics %s, frozen set %s" % (sorted(st), sorted(allowed)), nontrivial=bool(st),
+                   "statics that can hold state %s, frozen set %s (read-only tables: %s)" % (sorted(st), sorted(allowed), sorted(plain)), nontrivial=bool(st),
                    sample={"crate": cname, "config": config, "statics": sorted(st)} if st else None)
             tl = [s["path"] for s in f["statics"] if s["thread_local"]]
             chk.ob("R1", "%s[%s]|thread-locals" % (cname, config), not tl, "thread-local statics: %s" % tl, nontrivial=False)
@@ -106,6 +108,8 @@ def run(chk, tier):
                 if b["krate"] != cname:
                     continue
                 for sname, sp in sq.static_refs(b):
+                    if sname in plain:
+                        continue
                     okr = key in STATIC_READERS.get(sname, set())
                     chk.ob("R1", "%s[%s]|static %s accessed in %s" % (cname, config, sname, key), okr,
                            "" if okr else "static accessed outside the frozen reader set at %s" % sp[0], where=sp[0])
@@ -145,6 +149,8 @@ def run(chk, tier):
             nstat = 0
             for k in seen:
                 for sname, sp in sq.static_refs(crate.bodies[k]):
+                    if sname in plain:
+                        continue  # a read-only table
                     nstat += 1
                     chk.ob("R3", "%s[%s]|generator operation %s touches static %s" % (cname, config, k, sname), False,
                            "static access reachable from a generator operation", where=sp[0])
